@@ -873,14 +873,15 @@ LEVEL_TEXT = ("Machine-checked theorems (Coq 8.16, closed under the global conte
               "C07's fold and C06's default phase) returns the value; extraction can fail after a successful command parse "
               "exactly when the command does not declare the requiredness (witness: required = false on a plain field); and "
               "for every well-formed invocation of the update command of a struct of argument fields, a field whose argument "
-              "has no default and no occurrence ON THE LINE keeps its value under try_update_from.  The model is tied to clap_derive by compiling a corpus spanning the shape x kind x type x "
+              "has no default and no occurrence ON THE LINE keeps its value under try_update_from; the command-line phase accepts "
+              "the printed line when every printed group passes the built argument's own count check and value parser.  The model is tied to clap_derive by compiling a corpus spanning the shape x kind x type x "
               "attribute matrix with the real macro and comparing command dumps, parses, round trips, update sequences "
               "and value-enum lookups against the extracted model (which runs on top of the parser model) on every check; "
               "an independent python oracle checks the property's statements on the implementation's output.")
 LEVEL_NOTE = ("Partial: the macro runs inside rustc, so the tie is its expansion on the corpus; attribute parsing and casing "
               "are covered differentially only.  The round trip through the parser is proved as soundness (the command accepts "
-              "the printed line => the value comes back) for structs of option fields; that the command does accept the line "
-              "(react succeeds on every printed group, validation passes), positionals after --, flattened structs and "
+              "the printed line => the value comes back) for structs of option fields; acceptance is proved for the command-line "
+              "phase only (every react succeeds), not for the default and validation phases; positionals after --, flattened structs and "
               "subcommand enums, and 'extraction cannot fail after a successful parse' for arbitrary argv (needs a whole-loop "
               "invariant on stored values that the parser proofs do not provide yet) stay checked executably on every "
               "dround / dparse case.  Four families where the unchanged "
